@@ -16,6 +16,7 @@ package main
 import (
 	"errors"
 	"fmt"
+	"os"
 	"sort"
 	"strings"
 	"time"
@@ -257,7 +258,40 @@ func (w *world) get(key string, from, to int64, avoid bool) {
 		return loadN, loadGen, loadErr
 	}
 	w.loaderFn = loader
-	n, gen, err := w.c.Get(key, from, to, avoid)
+	// the eviction loop of get spins forever (holding the mutex) if the size accounting is ever off: run the call
+	// under a watchdog (expected duration: microseconds) so that a hang becomes a reported violation, not a timeout
+	type getRes struct {
+		n, gen int
+		err    error
+		pnc    any
+	}
+	done := make(chan getRes, 1)
+	go func() {
+		var r getRes
+		defer func() {
+			if p := recover(); p != nil {
+				r.pnc = p
+			}
+			done <- r
+		}()
+		r.n, r.gen, r.err = w.c.Get(key, from, to, avoid)
+	}()
+	var gr getRes
+	select {
+	case gr = <-done:
+	case <-time.After(30 * time.Second):
+		if !loaderCalled {
+			h.Op("get %d %s %d %d %d %s", id, keyID(key), from, to, b2i(avoid), i64s(w.takeClocks()))
+		}
+		h.Obs("hang")
+		h.Viol("get-hangs", "get %s %d..%d did not return within 30 s (eviction loop spinning: size=%d with %d keys, approxMaxSize=%d)", key, from, to, before.Size, len(before.Entries), w.maxSize)
+		h.Done()
+		os.Exit(0)
+	}
+	if gr.pnc != nil {
+		panic(gr.pnc)
+	}
+	n, gen, err := gr.n, gr.gen, gr.err
 	rest := w.takeClocks()
 	w.consumed = outer
 	tHi := w.clk
